@@ -466,7 +466,7 @@ def finish_dir(ctx, out, label):
     return found
 
 
-def run_scenarios(ctx, scs, label, perfile=20, shards=1):
+def run_scenarios(ctx, scs, label, perfile=20, shards=1, env_extra=None):
     """Execute given scenarios (e.g. lifted from TLC behaviours) and validate their traces.
     shards > 1 runs several executor processes side by side (schedules with waits)."""
     out = ctx.sub("sc-" + label)
@@ -480,10 +480,10 @@ def run_scenarios(ctx, scs, label, perfile=20, shards=1):
         jobs.append(["runfile", src, out, "%s%d" % (label, k), perfile])
     try:
         if shards == 1:
-            run_icex(ctx, jobs[0])
+            run_icex(ctx, jobs[0], env_extra=env_extra)
         else:
             with cf.ThreadPoolExecutor(max_workers=NCPU) as ex:
-                list(ex.map(lambda j: run_icex(ctx, j), jobs))
+                list(ex.map(lambda j: run_icex(ctx, j, env_extra=env_extra), jobs))
     except Crashed:
         ctx.log("%s: executor crashed inside ice (recorded as violation); its partial traces are not validated" % label)
         return []
